@@ -35,13 +35,13 @@ func (h *noAllocHandler) HandleObjectValue(_, data []byte) (int, error) {
 
 type allocCase struct {
 	warmFn  string // the function that warmed the Buffer ("" = SkipValue, which needs the deepest stack)
-	between bool // between warm-up and measurement, every buffer-taking function runs on short documents with the same buffer
-	fn   string
-	data []byte
-	segs []seg
-	warm []seg // document the buffer was warmed on (buffer-taking functions)
-	pre  int   // destination: existing length
-	cap  int   // destination: capacity
+	between bool   // between warm-up and measurement, every buffer-taking function runs on short documents with the same buffer
+	fn      string
+	data    []byte
+	segs    []seg
+	warm    []seg // document the buffer was warmed on (buffer-taking functions)
+	pre     int   // destination: existing length
+	cap     int   // destination: capacity
 }
 
 // runAlloc measures one case.  ok reports whether the call succeeded.
